@@ -210,3 +210,43 @@ package rag
 //@     invariant chunkIndex == len(chunks) && forall k int :: {chunks[k]} 0 <= k && k < len(chunks) ==> chunks[k].Metadata.ChunkIndex == k
 //@   loop 1:
 //@     invariant len(chunks) == entry(len(chunks)) && forall k int :: {chunks[k]} 0 <= k && k < len(chunks) ==> chunks[k].Metadata.ChunkIndex == k && (k < $i ==> chunks[k].Metadata.TotalChunks == len(chunks))
+
+// heading recognition through the page layout's table of contents: an entry counts only on ITS page
+//@ func isHeadingElement results (r)
+//@   property C12
+//@   flags pure
+//@   ensures r <==> exists k int :: 0 <= k && k < len(toc) && toc[k].Page == pageNum && strings.TrimSpace(toc[k].Text) == strings.TrimSpace(old(text))
+//@   loop 0:
+//@     invariant forall k int :: {toc[k]} 0 <= k && k < $i ==> !(toc[k].Page == pageNum && strings.TrimSpace(toc[k].Text) == text)
+
+// level of the FIRST entry on this page with this text; 1 when there is none
+//@ func getHeadingLevel results (r)
+//@   property C12
+//@   ensures first_on_this_page: forall k int :: {toc[k]} 0 <= k && k < len(toc) && toc[k].Page == pageNum && strings.TrimSpace(toc[k].Text) == strings.TrimSpace(old(text)) && (forall j int :: {toc[j]} 0 <= j && j < k ==> !(toc[j].Page == pageNum && strings.TrimSpace(toc[j].Text) == strings.TrimSpace(old(text)))) ==> r == toc[k].Level
+//@   ensures default_level: (forall k int :: {toc[k]} 0 <= k && k < len(toc) ==> !(toc[k].Page == pageNum && strings.TrimSpace(toc[k].Text) == strings.TrimSpace(old(text)))) ==> r == 1
+//@   loop 0:
+//@     invariant forall k int :: {toc[k]} 0 <= k && k < $i ==> !(toc[k].Page == pageNum && strings.TrimSpace(toc[k].Text) == text)
+
+// ---- C14 / C03: an export depends only on its arguments and configuration: the exporter carries no state from one
+// export to the next (batches, repeated exports) ----
+//@ func (*Exporter) Export
+//@   property C14
+//@   flags frameonly, recvreadonly
+//@ func (*Exporter) ExportToString
+//@   property C14
+//@   flags frameonly, recvreadonly
+//@ func (*Exporter) exportCSV
+//@   property C14
+//@   flags frameonly, recvreadonly
+//@ func (*Exporter) exportJSONL
+//@   property C14
+//@   flags frameonly, recvreadonly
+//@ func (*Exporter) exportJSON
+//@   property C14
+//@   flags frameonly, recvreadonly
+//@ func (*Exporter) collectCSVColumns
+//@   property C14
+//@   flags frameonly, recvreadonly
+//@ func (*Exporter) chunkToCSVRow
+//@   property C14
+//@   flags frameonly, recvreadonly
